@@ -147,12 +147,14 @@ def model_repr(m, t):
         return False, None, ulp
     if r == 0:
         return False, None, ulp  # magnitudes are strictly positive: underflow to zero is not a representation
-    prec, emin, emax = model.FP_TYPES[t]
-    if v < Fraction(2) ** (emin - 1):
-        # subnormal region (below the type's documented minimum): the statement's limits are max and
-        # min; either answer is accepted here as long as a returned value is positive and close
-        return "either", r, ulp
+    # (a value in the subnormal band rounds to a strictly positive subnormal: it lies within the
+    #  type's range like any other, and 'a few ulps' is measured in the subnormal spacing)
     return True, r, ulp
+
+
+def fmax_of(t):
+    prec, emin, emax = model.FP_TYPES[t]
+    return (Fraction(2) ** prec - 1) * Fraction(2) ** (emax - prec)
 
 
 def num_den_intpart(m):
@@ -226,6 +228,14 @@ def body(ctx):
                 rep = got_rep
             if got_rep != rep:
                 v, _ = real_value(m)
+                if t == "long double" and rep and 1 / v > fmax_of(t):
+                    # one defect, one key: the value is computed as 1 / (reciprocal), and there is no
+                    # wider type than long double in which the reciprocal could be held
+                    ctx.violation("long double|value below 1/LDBL_MAX|representable",
+                                  "representable_in<long double>(%s) is false (and get_value a compile error) although the exact value, about 2^%d, is a positive long double (%s): "
+                                  "negative powers are computed as 1 / (positive power) and the positive power exceeds LDBL_MAX"
+                                  % (e, v.numerator.bit_length() - v.denominator.bit_length(), why))
+                    continue
                 ctx.violation(key + "|representable", "representable_in<%s>(%s) is %s; the exact value %s %s representable in %s (%s)"
                               % (t, e, got_rep, ("~%.6e" % float(v)) if v < Fraction(10) ** 300 and v > Fraction(1, 10 ** 300) else "(2^%d-ish)" % (v.numerator.bit_length() - v.denominator.bit_length()), "IS" if rep else "is NOT", t, why))
                 continue
